@@ -181,6 +181,34 @@ def correspond(ctx):
                              "model outcome differs from the implementation")
                 break
     submitted_tasks_part(ctx, ctx.scale(12, 120))
+    presubmit_histories_part(ctx)
+
+
+def presubmit_histories_part(ctx, witness=None):
+    """tasks submitted with an initialisation task at once / after instance() / after instance() and state_dict(): the init
+    task given to submit() is reachable from the submitted task, so an assignment on it afterwards must be rejected and the
+    identifier must stay what it was"""
+    if witness is None:
+        slibs, scases = identlib.submit_cases(ctx, ctx.rng, "c14sub", ctx.scale(2, 6), ctx.scale(6, 30))
+    else:
+        slibs, scases = witness
+    for case, rec in zip(scases, identlib.run_submit(ctx, slibs, scases, shards=4)):
+        if rec["error"]:
+            ctx.count("submit_case_errors", rec["error"][:60])
+            continue
+        ctx.case({"submit": case["graph"]}, True)
+        for h in rec.get("histories", []):
+            if "identifier" not in h:
+                continue
+            ctx.count("init_task_after_submit", h["env"] + ":" + h["init_task_assignment"].split(":")[0])
+            if h["init_task_assignment"] == "accepted":
+                ctx.monitor_fail("mutation-accepted-after-submit:init-task", f"history `{h['env']}`: an assignment on the initialisation task given to submit() was "
+                                 f"accepted after the submission", {"graph": case["graph"], "history": h})
+                break
+            if h["identifier_after"] != h["identifier"]:
+                ctx.monitor_fail("identifier-moved-after-rejected-assignment", f"history `{h['env']}`: identifier moved after a rejected assignment on an init task",
+                                 {"graph": case["graph"], "history": h})
+                break
 
 
 def submitted_tasks_part(ctx, n):
@@ -205,6 +233,14 @@ def submitted_tasks_part(ctx, n):
                                  f"a rejected assignment on a submitted {pk['cls']} task moved its identifier / job directory: "
                                  f"{pk['before'][0][:16]}… {pk['before'][1][-40:]} -> {pk['after'][0][:16]}… {pk['after'][1][-40:]}", {"submitted_tasks_case": case})
                 break
+
+
+def run_witness(ctx, finding):
+    w = finding.get("witness") or {}
+    if w.get("kind") == "presubmit-history":
+        from . import c01
+        g = {"nodes": [{"cls": "T", "values": [["v", 1]], "meta": None, "pre": [], "init": [], "task": None}]}
+        presubmit_histories_part(ctx, witness=([c01.WITNESS_LIB_SUBMIT], [{"lib": 0, "graph": g}]))
 
 
 def search(ctx):
